@@ -36,7 +36,10 @@ type dynGen struct {
 	feat   map[string]bool
 	// dynRate: 1-in-N block instances become dynamic
 	dynRate  int
-	usedIter bool // some content expression refers to an iterator
+	usedIter bool     // some content expression refers to an iterator
+	avoid    []string // key texts that must not appear in generated source (canaries)
+	// preferForEach: scope variables that a dynamic block's for_each reads directly 1 time in 3
+	preferForEach []string
 	// clean: no deliberate ill-typing or spec violations, so that most cases decode without error
 	clean bool
 }
@@ -83,9 +86,9 @@ func (g *dynGen) expr(ty cty.Type) ast.Node {
 		if rapid.Bool().Draw(t, "clean_literal") {
 			return literalOfType(t, ty)
 		}
-		return gen.NewEG(t, g.scopeWithIters(), gen.ExprOpts{Budget: 5, MaxDepth: 2, NoHeredoc: true}).Expr(ty)
+		return gen.NewEG(t, g.scopeWithIters(), gen.ExprOpts{Budget: 5, MaxDepth: 2, NoHeredoc: true, AvoidKeys: g.avoid}).Expr(ty)
 	}
-	eg := gen.NewEG(t, g.scopeWithIters(), gen.ExprOpts{IllTyped: 8, Budget: 6, MaxDepth: 2, NoHeredoc: true})
+	eg := gen.NewEG(t, g.scopeWithIters(), gen.ExprOpts{IllTyped: 8, Budget: 6, MaxDepth: 2, NoHeredoc: true, AvoidKeys: g.avoid})
 	if len(g.iters) > 0 && rapid.IntRange(0, 1).Draw(t, "use_iterator") == 0 {
 		// refer to an iterator directly so that substitution is exercised
 		it := g.iters[rapid.IntRange(0, len(g.iters)-1).Draw(t, "which_iter")]
@@ -112,7 +115,7 @@ func (g *dynGen) bodyExpr(ty cty.Type) ast.Node {
 	if g.clean {
 		ill = 0
 	}
-	return gen.NewEG(t, g.scopeWithIters(), gen.ExprOpts{IllTyped: ill, Budget: 8, MaxDepth: 3, NoHeredoc: true}).Expr(ty)
+	return gen.NewEG(t, g.scopeWithIters(), gen.ExprOpts{IllTyped: ill, Budget: 8, MaxDepth: 3, NoHeredoc: true, AvoidKeys: g.avoid}).Expr(ty)
 }
 
 func (g *dynGen) dyn(x *gen.SpecM, content func() *ast.Body) (ast.Item, bool) {
@@ -126,7 +129,7 @@ func (g *dynGen) dyn(x *gen.SpecM, content func() *ast.Body) (ast.Item, bool) {
 	}
 	d := ast.Dyn{Type: x.Name}
 	// for_each: a scope collection, or a constructor of literals
-	eg := gen.NewEG(t, g.scopeWithIters(), gen.ExprOpts{IllTyped: 10, Budget: 6, MaxDepth: 2, NoHeredoc: true})
+	eg := gen.NewEG(t, g.scopeWithIters(), gen.ExprOpts{IllTyped: 10, Budget: 6, MaxDepth: 2, NoHeredoc: true, AvoidKeys: g.avoid})
 	fk := rapid.IntRange(0, 5).Draw(t, "for_each_kind")
 	if g.clean {
 		fk = fk % 2
@@ -184,6 +187,10 @@ func (g *dynGen) dyn(x *gen.SpecM, content func() *ast.Body) (ast.Item, bool) {
 		// the inner iterator takes the name of an enclosing one and must shadow it
 		d.Iterator = g.iters[rapid.IntRange(0, len(g.iters)-1).Draw(t, "shadowed")].name
 		g.feat["custom_iterator"] = true
+	}
+	if len(g.preferForEach) > 0 && !single && rapid.IntRange(0, 2).Draw(t, "preferred_for_each") == 0 {
+		d.ForEach = ast.Var{Name: rapid.SampledFrom(g.preferForEach).Draw(t, "for_each_var")}
+		g.feat["for_each_preferred_variable"] = true
 	}
 	if rapid.IntRange(0, 7).Draw(t, "iterator_named_like_variable") == 0 {
 		// the iterator takes the name of a root variable and for_each refers to that variable:
